@@ -1,4 +1,4 @@
 SPECIFICATION MCSpec
-CONSTANT Strict = TRUE
+CONSTANTS Strict = TRUE  Big = FALSE
 INVARIANTS StrictInv
 CHECK_DEADLOCK FALSE
